@@ -21,7 +21,7 @@ func init() {
 
 func c13() []*Ob {
 	return []*Ob{
-		{Prop: "C13", ID: "C13.1", Engine: "DOM+OWN", Floor: 4,
+		{Prop: "C13", ID: "C13.1", Engine: "DOM+OWN", Floor: 3,
 			Desc: "narrow only what is sorted: every Narrow call is dominated by tp.Ordered() == true; token.Provider.Ordered returns the constant true and frac.activeTokenProvider.Ordered the constant false; the narrowed flags are written only by the Narrow methods",
 			Check: func(c *Ctx) {
 				for _, fn := range c.P.FuncsInPkg("pattern") {
@@ -68,7 +68,7 @@ func c13() []*Ob {
 					}
 				}
 			}},
-		{Prop: "C13", ID: "C13.2", Engine: "PAIR(comparator)+INDEX", Floor: 3,
+		{Prop: "C13", ID: "C13.2", Engine: "PAIR(comparator)+INDEX", Floor: 2,
 			Desc: "one order: sealing sorts a field's tokens with bytes.Compare and Narrow compares with bytes.Compare / bytes.Equal; literalSearch.Narrow reads GetToken(first) only under first <= last",
 			Check: func(c *Ctx) {
 				if fn := c.Fn("(*frac.DiskBlocksProducer).getTIDsSortedByToken"); fn != nil {
@@ -105,7 +105,7 @@ func c13() []*Ob {
 					}
 				}
 			}},
-		{Prop: "C13", ID: "C13.4", Engine: "ENUM+PATHSIM", Floor: 3,
+		{Prop: "C13", ID: "C13.4", Engine: "ENUM+PATHSIM", Floor: 2,
 			Desc: "searcher coverage and numeric/text decision: newSearcher's type switch covers every token type; NewRangeNumberSearch never returns a searcher on a path where one of its ParseFloat calls failed (so the text range search is used instead)",
 			Check: func(c *Ctx) {
 				if fn := c.Fn("pattern.newSearcher"); fn != nil {
@@ -172,7 +172,7 @@ func c13() []*Ob {
 					}
 				}
 			}},
-		{Prop: "C13", ID: "C13.5", Engine: "PROV+SHAPE", Floor: 3,
+		{Prop: "C13", ID: "C13.5", Engine: "PROV+SHAPE", Floor: 1,
 			Desc:  "structural necessities of the wildcard matcher: checkMiddle searches the middle fragments in val[len(prefix) : len(val)-len(suffix)] (not overlapping prefix or suffix); the prefix-function fallback in findSubstring and calcPrefFunc is iterated (a loop), not a single step",
 			Check: func(c *Ctx) { matcherShape(c) }},
 	}
